@@ -62,7 +62,7 @@ class Device:
 class AccfgMachine(Machine):
     EXTRA = TABLE
 
-    def __init__(self, mod, env, accs: dict[str, list[str]], label="ref", check_infer=False, check_thread=False):
+    def __init__(self, mod, env, accs: dict[str, list[str]], label="ref", check_infer=False, check_thread=False, infer_cache=None):
         super().__init__(mod)
         self.env = env
         self.seed = env["seed"]
@@ -74,6 +74,8 @@ class AccfgMachine(Machine):
         self.probes: dict[str, int] = {}
         self.faults: dict[str, int] = {}
         self.infer = None
+        # infer_state_of is a pure function of the (unchanging) IR: evaluated once per SSA value
+        self.infer_cache = infer_cache if infer_cache is not None else {}
         if check_infer:
             from snaxc.inference.trace_acc_state import infer_state_of
 
@@ -96,9 +98,14 @@ class AccfgMachine(Machine):
     def check_state(self, v, vals, where):
         if not self.check_infer:
             return
-        try:
-            st = self.infer(v)
-        except (ValueError, AssertionError, KeyError, IndexError, RecursionError):
+        st = self.infer_cache.get(v)
+        if st is None:
+            try:
+                st = self.infer(v)
+            except (ValueError, AssertionError, KeyError, IndexError, RecursionError):
+                st = "raised"
+            self.infer_cache[v] = st
+        if st == "raised":
             self.probe("infer-raised")
             return
         d = self.device(v.type.accelerator.data)
